@@ -26,7 +26,8 @@ import types
 from collections import Counter, deque
 from inspect import isawaitable
 
-from statemachine import State, StateMachine
+from statemachine import Event, State, StateMachine
+from statemachine.states import States
 from statemachine.exceptions import TransitionNotAllowed
 
 BUILTINS = ("event_data", "machine", "event", "model", "transition", "state", "source", "target")
@@ -326,11 +327,12 @@ class Rendered:
         return sm, Hh
 
 
-def render(spec, *, state_factory=None):
+def render(spec, *, cname=None, register=True):
     """Build a real StateMachine subclass from the spec (default declaration style: `src.to(dst, event="e1 e2", ...)`
-    in declaration order)."""
+    in declaration order; spec["style"] selects other documented styles).  `cname`/`register=False` are used to define
+    unrelated classes that deliberately reuse the names of another generated class (C16)."""
     uid = next(UID)
-    cname = f"GenSM{uid}"
+    cname = cname or f"GenSM{uid}"
     ns = {}
     cbs = spec["cbs"]
     guards = spec.get("guards", [])
@@ -372,6 +374,7 @@ def render(spec, *, state_factory=None):
                     out.append(item)
         return out
 
+    style = spec.get("style") or {}
     states = []
     for i, s in enumerate(spec["states"]):
         kw = dict(initial=s.get("initial", False), final=s.get("final", False))
@@ -384,22 +387,82 @@ def render(spec, *, state_factory=None):
             kw["enter"] = en
         if ex:
             kw["exit"] = ex
-        st = State(**kw)
-        states.append(st)
-        ns[s["id"]] = st
-    tlists = []
-    for k, t in enumerate(spec["trans"]):
-        kw = dict(event=" ".join(t["events"]))
+        states.append(kw)
+    sstyle = style.get("states", "attr")
+    if sstyle == "enum":
+        # States.from_enum(Enum, initial=, final=): names are the ids, values the abstract values
+        E = enum.Enum(f"{cname}_E", {s["id"]: (dec(s["value"]) if "value" in s else s["id"]) for s in spec["states"]})
+        init = next(E[s["id"]] for s in spec["states"] if s.get("initial"))
+        sts = States.from_enum(E, initial=init, final=[E[s["id"]] for s in spec["states"] if s.get("final")])
+        ns["_states"] = sts
+        states = [getattr(sts, s["id"]) for s in spec["states"]]
+    elif sstyle == "dict":
+        d = {s["id"]: State(**kw) for s, kw in zip(spec["states"], states)}
+        ns["sts"] = States(d)
+        states = [d[s["id"]] for s in spec["states"]]
+    else:
+        states = [State(**kw) for kw in states]
+        for s, st in zip(spec["states"], states):
+            ns[s["id"]] = st
+    plan = style.get("trans") or [{"k": [k], "how": "kwstr"} for k in range(len(spec["trans"]))]
+    tlists = [None] * len(spec["trans"])
+    per_event = {}  # event -> [(TransitionList, how)] for class-attribute declared events
+
+    def tkw(k, with_event=None):
+        t = spec["trans"][k]
+        kw = {}
+        if with_event == "kwstr":
+            kw["event"] = " ".join(t["events"])
+        elif with_event == "kwlist":
+            kw["event"] = list(t["events"])
+        elif with_event == "kw_eventobj":
+            kw["event"] = [Event(e) for e in t["events"]] if len(t["events"]) > 1 else Event(t["events"][0])
         if t.get("internal"):
             kw["internal"] = True
         for grp in ("cond", "unless"):
             if t.get(grp):
-                kw[grp] = list(t[grp])
+                kw[grp] = list(t[grp]) if len(t[grp]) > 1 or not style else t[grp][0]
         for grp in ("validators", "before", "on", "after"):
             items = inline(grp, "trans", k)
             if items:
                 kw[grp] = items
-        tlists.append(states[t["src"]].to(states[t["dst"]], **kw))
+        return kw
+
+    for d in plan:
+        ks, how = d["k"], d["how"]
+        t = spec["trans"][ks[0]]
+        if how in ("kwstr", "kwlist", "kw_eventobj"):
+            tl = states[t["src"]].to(states[t["dst"]], **tkw(ks[0], how))
+        elif how == "from":
+            tl = states[t["dst"]].from_(states[t["src"]], **tkw(ks[0], d.get("ev", "kwstr")))
+        elif how == "itself":
+            tl = states[t["src"]].to.itself(**tkw(ks[0], d.get("ev", "kwstr")))
+        elif how in ("attr", "event_obj"):
+            tl = states[t["src"]].to(states[t["dst"]], **tkw(ks[0])) if not d.get("via_from") else states[t["dst"]].from_(states[t["src"]], **tkw(ks[0]))
+            for e in t["events"]:
+                per_event.setdefault(e, []).append((tl, how))
+        elif how == "multi-target":
+            tl = states[t["src"]].to(*[states[spec["trans"][k]["dst"]] for k in ks], **tkw(ks[0], d.get("ev", "kwstr")))
+        elif how == "multi-source":
+            tl = states[t["dst"]].from_(*[states[spec["trans"][k]["src"]] for k in ks], **tkw(ks[0], d.get("ev", "kwstr")))
+        elif how == "any":
+            tl = states[t["dst"]].from_.any(**tkw(ks[0]))
+            ns[t["events"][0]] = tl
+        else:
+            raise HarnessError(f"unknown declaration style {how}")
+        for k in ks:
+            tlists[k] = tl
+    for e, lst in per_event.items():
+        tls = [x[0] for x in lst]
+        if style.get("assoc") == "right" and len(tls) > 1:
+            combined = tls[-1]
+            for x in reversed(tls[:-1]):
+                combined = x | combined
+        else:
+            combined = tls[0]
+            for x in tls[1:]:
+                combined = combined | x
+        ns[e] = Event(combined, name=e) if any(x[1] == "event_obj" for x in lst) else combined
     # decorator style (machine methods registered on states / transition lists)
     for c in cbs:
         if c["attach"] != "deco":
@@ -424,8 +487,14 @@ def render(spec, *, state_factory=None):
     ns["__module__"] = __name__
     ns["__qualname__"] = cname
     kwds = {"strict_states": True} if spec.get("strict") else {}
-    cls = types.new_class(cname, (StateMachine,), kwds, lambda d: d.update(ns))
-    setattr(HARNESS_MODULE, cname, cls)
+    if style.get("inherit"):
+        base = types.new_class(cname + "_base", (StateMachine,), kwds, lambda d: d.update(ns))
+        setattr(HARNESS_MODULE, cname + "_base", base)
+        cls = types.new_class(cname, (base,), {}, lambda d: d.update({"__module__": __name__, "__qualname__": cname}))
+    else:
+        cls = types.new_class(cname, (StateMachine,), kwds, lambda d: d.update(ns))
+    if register:
+        setattr(HARNESS_MODULE, cname, cls)
     pclasses = {}
     for prov, pns in prov_ns.items():
         pname = f"{cname}_{prov}"
@@ -435,7 +504,8 @@ def render(spec, *, state_factory=None):
             pns["__eq__"] = lambda a, b: type(a) is type(b)
             pns["__hash__"] = lambda a: 7
         pcls = type(pname, (), pns)
-        setattr(HARNESS_MODULE, pname, pcls)
+        if register:
+            setattr(HARNESS_MODULE, pname, pcls)
         pclasses[prov] = pcls
     for twin, orig in same.items():
         if orig in pclasses:
